@@ -57,7 +57,8 @@ def make_replayer():
             return False, {'error': bat.err}
         want = ORACLES.get(ob.kind, [])
         if ob.kind == 'reader-semantics':
-            want = ['ranges'] if 'rows' in ob.oid else ['bounds']
+            want = ['empty-rows'] if 'empty-rows' in ob.oid else (
+                ['ranges'] if ':rows:' in ob.oid else ['bounds'])
         hits = {k: v for k, v in bat.result.items() if k in want}
         info = {'battery': 'engine/replay/mps_battery.py on an overlay '
                 'build of the current tree (round trips compared by '
@@ -97,7 +98,9 @@ def run(report, tier, seed):
         report.not_decided.append(
             'the constraints the reader builds from RANGES and BOUNDS')
     report.replayer = make_replayer()
-    report.floor = 60
+    # a writer outside the supported subset is an undecided obligation of
+    # its own (exit 2), not a vacuous run
+    report.floor = 60 if not any(o['kind'] == 'engine' for o in obs) else 1
     report.extra['line_shapes'] = info['lines']
     report.extra['reader_slices'] = info['reader_uses']
     report.extra['explanation'] = (
